@@ -25,7 +25,7 @@ func mstOf(s, nmst int) int {
 }
 
 // the per-shard options of internal/tsdrv (tsdrv.Init must have run: it creates the engine and its limiters)
-func shardOpts(async bool) engine.EngineOptions {
+func shardOpts(async, parallel bool) engine.EngineOptions {
 	o := engine.NewEngineOptions()
 	o.WriteColdDuration = 5000 * time.Second
 	o.ShardMutableSizeLimit = 30 * 1024 * 1024
@@ -34,7 +34,7 @@ func shardOpts(async bool) engine.EngineOptions {
 	o.MemDataReadEnabled = true
 	o.WalSyncInterval = 100 * time.Millisecond
 	o.WalEnabled = true
-	o.WalReplayParallel = false
+	o.WalReplayParallel = parallel
 	o.WalReplayAsync = async
 	o.DownSampleWriteDrop = true
 	o.FullCompactColdDuration = time.Hour
@@ -52,8 +52,11 @@ func shardOpts(async bool) engine.EngineOptions {
 	return o
 }
 
+// replayParallel: the crash images of the running history are re-opened with wal-replay-parallel = true
+var replayParallel bool
+
 func openShard(dir string, async bool) (*engine.VerifShard, error) {
-	v, err := engine.VerifOpenShardOpts(dir, shardOpts(async))
+	v, err := engine.VerifOpenShardOpts(dir, shardOpts(async, replayParallel))
 	if err != nil {
 		return nil, err
 	}
